@@ -6,6 +6,7 @@ import (
 	"os"
 	"path/filepath"
 	"strings"
+	"time"
 
 	"github.com/wrgl/wrgl/pkg/objects"
 
@@ -144,7 +145,7 @@ func runIngest(env *fw.Env, id string, csvBytes []byte, pkNames []string, cfg in
 	if cfg.Chunks == "auto" {
 		runSize = 0
 	}
-	if cfg.Via == "cli" {
+	if cfg.Via == "cli" || cfg.Via == "cli-bf" {
 		root := filepath.Join(env.Dir, "repo-"+id)
 		os.RemoveAll(root)
 		wd, err := mon.NewRepo(root)
@@ -154,7 +155,6 @@ func runIngest(env *fw.Env, id string, csvBytes []byte, pkNames []string, cfg in
 		}
 		res.Close = func() { os.RemoveAll(root) }
 		fp := filepath.Join(root, "data.csv")
-		os.WriteFile(fp, csvBytes, 0644)
 		args := []string{"commit", "main", fp, "msg", "--no-progress", "-n", fmt.Sprint(cfg.Workers)}
 		if len(pkNames) > 0 {
 			args = append(args, "-p", strings.Join(pkNames, ","))
@@ -165,10 +165,50 @@ func runIngest(env *fw.Env, id string, csvBytes []byte, pkNames []string, cfg in
 		if cfg.Delim != "" {
 			args = append(args, "--delimiter", cfg.Delim)
 		}
-		_, err, pn := mon.Wrgl(wd, nil, args...)
-		res.Err, res.Panic = err, pn
-		if err != nil || pn != "" {
-			return
+		if cfg.Via == "cli-bf" {
+			// the branch-file route: the file is registered with the branch, committed in an earlier state through
+			// the cached two-argument form, then rewritten within the same second as the cache entry and committed
+			// again the same way; the branch must hold the file's final rows
+			cols, rows, _ := gen.ParseCSV(csvBytes, delimRune(cfg.Delim))
+			v0 := gen.ToCSV(&gen.Table{Cols: cols}, delimRune(cfg.Delim))
+			v1 := v0
+			if len(rows) > 1 {
+				v1 = gen.ToCSV(&gen.Table{Cols: cols, Rows: rows[:len(rows)-1]}, delimRune(cfg.Delim))
+			}
+			os.WriteFile(fp, v0, 0644)
+			if out, err, pn := mon.Wrgl(wd, nil, append(args, "--set-file", "--set-primary-key")...); err != nil || pn != "" {
+				res.Err, res.Panic = fmt.Errorf("first branch-file commit: %v %s", err, out), pn
+				return
+			}
+			os.WriteFile(fp, v1, 0644)
+			two := []string{"commit", "main", "second", "--no-progress", "-n", fmt.Sprint(cfg.Workers)}
+			if out, err, pn := mon.Wrgl(wd, nil, two...); err != nil || pn != "" {
+				res.Err, res.Panic = fmt.Errorf("second branch-file commit: %v %s", err, out), pn
+				return
+			}
+			os.WriteFile(fp, csvBytes, 0644)
+			if h, err := mon.OpenRepoHandle(wd); err == nil {
+				if tmp, err := h.RS.Get("heads/main-tmp"); err == nil {
+					if com, err := objects.GetCommit(h.DB, tmp); err == nil {
+						mt := time.Unix(com.Time.Unix(), 900_000_000)
+						os.Chtimes(fp, mt, mt)
+					}
+				}
+				h.Close()
+			}
+			two[2] = "third"
+			_, err, pn := mon.Wrgl(wd, nil, two...)
+			res.Err, res.Panic = err, pn
+			if err != nil || pn != "" {
+				return
+			}
+		} else {
+			os.WriteFile(fp, csvBytes, 0644)
+			_, err, pn := mon.Wrgl(wd, nil, args...)
+			res.Err, res.Panic = err, pn
+			if err != nil || pn != "" {
+				return
+			}
 		}
 		out, err, pn := mon.Wrgl(wd, nil, "export", "main")
 		if err != nil || pn != "" {
@@ -293,7 +333,7 @@ func randTblSpec(rng *rand.Rand, unique bool) tblSpec {
 	return s
 }
 
-var workerChoices = []int{1, 3, 4, 8, 16}
+var workerChoices = []int{1, 2, 3, 4, 8, 16} // 2 and 3 sit on the inserter's "minus two, at least one" clamp
 var chunkChoices = []string{"none", "one", "two", "five", "every", "auto"}
 var delimChoices = []string{"", "", "|", ";", "\t"}
 
